@@ -303,6 +303,87 @@ def conf_items(tier):
     return items
 
 
+# ------------------------------------------------------------------ (a2) sequence numbers that wrap
+WRAP_SUITES = [('aes128-ctr', 'hmac-sha2-256'), ('aes128-ctr', 'hmac-sha2-256-etm@openssh.com'), ('aes128-ctr', 'hmac-sha1-96'),
+               ('aes128-ctr', 'umac-64@openssh.com'), ('aes128-ctr', 'umac-128@openssh.com'),
+               ('aes256-ctr', 'umac-64-etm@openssh.com'), ('aes128-cbc', 'umac-128-etm@openssh.com'),
+               ('aes128-gcm@openssh.com', 'hmac-sha2-256'), ('chacha20-poly1305@openssh.com', 'hmac-sha2-256'),
+               ('3des-cbc', 'hmac-md5')]
+
+
+def seqwrap_worker(job):
+    """a long-lived connection: both ends' packet counters stand a few packets short of 2^32 (set to the same
+    value on both sides of each direction, the state an uninterrupted conversation reaches), then ten packets go
+    each way across the wrap: the independent implementation still accepts every packet and vice versa"""
+    cipher, mac, role, before = job
+    acc = core.Acc()
+    cfg = 'seqwrap/%s/%s/%s/%d' % (cipher, mac, role, before)
+    viol = []
+    env = {}
+    env['session_factory'] = lambda: P.RecSession('srv')
+    kw = dict(kex_algs=['curve25519-sha256'], encryption_algs=[cipher], mac_algs=[mac], compression_algs=['none'])
+    rk = _rp_kw('curve25519-sha256', cipher, cipher, mac, mac, 'none', 'none')
+    if role == 'server':
+        w = H.SrvWorld(sopts=dict(window=2 ** 24, **kw), rp_kw=rk, env=env)
+    else:
+        w = H.CliWorld(copts=kw, rp_kw=rk)
+    try:
+        if role == 'server':
+            w.kex().auth()
+            peer_chan, _rwin, _rpkt = w.open_session(window=2 ** 30)
+            sess = env['server_sessions'][0]
+            chan = sess.chan
+        else:
+            w.window = 2 ** 30
+            w.login()
+            chan, sess = w.run(w.conn.create_session(lambda: P.RecSession('cli'), encoding=None, window=2 ** 24))
+            peer_chan = w.chan_opens[0][1]
+        w.flush()
+        n0 = len([1 for t, p in w.rp.inbox if t == R.MSG_CHANNEL_DATA])
+        x, y = (0xffffffff - before) & 0xffffffff, (0xffffffff - before - 1) & 0xffffffff
+        w.conn._send_seq = w.rp.recv_dir.seq = x
+        w.conn._recv_seq = w.rp.send_dir.seq = y
+        out = [payload(20 + i, 40 + i) for i in range(10)]
+        back = [payload(33 + i, 60 + i) for i in range(10)]
+        for a, b in zip(out, back):
+            chan.write(a)
+            w.rp.send(w.rp.channel_data(peer_chan, b))
+            w.flush()
+        got = [R.Reader(p, 5).string() for t, p in w.rp.inbox if t == R.MSG_CHANNEL_DATA][n0:]
+        if b''.join(got) != b''.join(out):
+            viol.append(('payload-mismatch', 'refpeer decoded %d of the %d bytes written across the wrap' % (len(b''.join(got)), len(b''.join(out)))))
+        if sess.got()[-len(b''.join(back)):] != b''.join(back):
+            viol.append(('delivery-mismatch', 'application received %d bytes; refpeer sent %d across the wrap' % (len(sess.got()), len(b''.join(back)))))
+        if w.conn._transport is None:
+            viol.append(('closed', repr(getattr(w.owner, 'lost_exc', None))))
+        if w.proto.error:
+            viol.append(('refpeer-reject', str(w.proto.error)))
+        seqs = [i['seq'] for i in w.rp.infos][-40:]
+        seqs = seqs[seqs.index(x):] if x in seqs else seqs
+        acc.add(core.digest((cfg, tuple(seqs))), transitions=20, sample={'cfg': cfg, 'sequence_numbers_decoded': seqs} if mac.startswith('umac-64@') else None)
+        if before < 10 and 0 not in seqs and not viol:
+            viol.append(('no-wrap', 'harness: sequence numbers decoded %r never passed zero' % (seqs,)))
+    except R.RefError as exc:
+        viol.append(('refpeer-reject', str(exc)))
+        acc.add(core.digest((cfg, 'err')))
+    except Livelock as exc:
+        viol.append(('livelock', str(exc)))
+        acc.add(core.digest((cfg, 'err')))
+    except (asyncssh.Error, OSError) as exc:
+        viol.append(('asyncssh-reject', repr(exc)))
+        acc.add(core.digest((cfg, 'err')))
+    finally:
+        w.close()
+    for k, d in viol:
+        acc.violation('wire:%s:%s' % (k, cfg), d, {'kind': 'seqwrap', 'job': list(job)})
+    return acc
+
+
+def seqwrap_jobs(tier):
+    befores = (3,) if tier == 'quick' else (0, 1, 3, 9)
+    return [(c, m, role, b) for c, m in WRAP_SUITES for role in ('server', 'client') for b in befores]
+
+
 # ------------------------------------------------------------------ (b) segmentation
 SEG_SIZES = [1, 15, 16, 17, 100, 300]
 
@@ -607,6 +688,7 @@ def main(tier, seed):
     acc.merge(core.pmap(conf_server, core.rotate(items, seed), chunksize=4))
     acc.merge(core.pmap(conf_client, core.rotate(items, seed), chunksize=4))
     acc.merge(core.pmap(guess_worker, guess_jobs()))
+    acc.merge(core.pmap(seqwrap_worker, seqwrap_jobs(tier)))
     n_conf = acc.evaluations
     # segmentation: baseline twice (determinism), then every policy
     base1, bounds = seg_run(('whole',), seed)
@@ -653,7 +735,8 @@ def main(tier, seed):
                         'interop_runs': len(it),
                         'uncovered': 'kex not implemented by refpeer (curve448, mlkem*, rsa*, '
                                      'group15-18, nistp-1.3.132.0.10, gss) and ciphers blowfish/cast/'
-                                     'seed/arcfour, umac MACs: covered only real<->real in C01/C03'},
+                                     'seed/arcfour: covered only real<->real in C01/C03; UMAC (umac-64/128[-etm]) is decoded '
+                                     'by an RFC 4418 implementation written for the reference peer and checked against the RFC vectors'},
                        assumptions=['cryptography/OpenSSL primitives are shared between asyncssh '
                                     'and refpeer; their composition is independent',
                                     'OpenSSH 9.2 client as reference behaviour'])
@@ -669,6 +752,8 @@ def replay(rep):
     elif kind == 'guess':
         i = r['item']
         acc = guess_worker([(i[0], i[1], i[2], i[3])])
+    elif kind == 'seqwrap':
+        acc = seqwrap_worker(tuple(r['job']))
     elif kind == 'interop':
         acc = interop_worker(tuple(r['item']))
     else:
